@@ -66,7 +66,7 @@ def config(cfg, seed):
     if key not in _CFG:
         ro = ro_values(seed)
         if cfg == 0:
-            _CFG[key] = (ro, {b'k': [b'\x01', b'\x02'], b'P': [b'\x03'], b'': [b'\x04']}, None, (1024, 1024, 128), CONTRACTS)
+            _CFG[key] = (ro, {b'k': [b'\x01', b'\x02'], b'P': [b'\x03'], b'': [b'\x04'], b'tu': (b'\x05', b'\x06\x07')}, None, (1024, 1024, 128), CONTRACTS)
         elif cfg == 1:
             _CFG[key] = (ro, {}, None, (4, 8, 128), CONTRACTS)
         elif cfg == 2:
@@ -99,7 +99,7 @@ def items(tier, seed):
 
 # ---------------------------------------------------------------- operand sets
 U8 = [0, 1, 2, 3, 255]
-KEYS_LV = [b'', b'k', b'P', b'zz', b'timestamp']
+KEYS_LV = [b'', b'k', b'P', b'zz', b'timestamp', b'tu']
 VALKEYS = [b'timestamp', b'vi', b'vneg', b'vf', b'vs', b'vb', b'vl', b'vt', b'sigfield1', b'nope', b'\xff\xfe', b'']
 FLAGKEYS = [b'\x00', b'\x01', b'\x09', b'\x0a', b'\x0b', b'ts_threshold', b'', b'\x00\x01', b'\xff']
 DIVS = [b'\x00', b'\x01', b'\xff', b'\x02', b'\xfe', b'\x03', b'\x7f', b'\x00\x80', b'\x00\x02', b'']
